@@ -127,6 +127,7 @@ Theorem prom_select_exact_series : forall (re_match re_full : string -> string -
                   exists s, List.In s (d_samples db) /\ window_ok h s = true /\ sm_fp s = fp) /\
       (forall o, List.In o out ->
          (exists s, List.In s (d_series db) /\ t_fp s = o_fp o /\ prom_matches re_full ms (t_labels s) = true /\
+                    o_labels o = sort_labels (sort_labels (t_labels s)) /\      (* the list itself: sorted by name, see series_labels_sorted *)
                     (forall kv, List.In kv (o_labels o) <-> List.In kv (t_labels s))) /\
          o_samples o = rows_of (o_fp o) rows /\
          StronglySorted Z.le (map fst (o_samples o))).
@@ -336,3 +337,18 @@ Theorem range_filter_windows_partial : forall step range k l,
   window range (k * step) (range_filter step range l) = window range (k * step) l.
 Proof. exact range_filter_keeps_windows. Qed.
 Print Assumptions range_filter_windows_partial.
+
+(* the two SQL expressions processHints adds, under the reference interpreter, are the functions the list readings
+   bucket_series / range_filter are built from (for every hint and timestamp): the bucket column
+   intDiv(spls.timestamp_ms - Start + Step - 1, Step) * Step + Start = bucket_of, and the condition
+   timestamp_ms % Step == 0 or timestamp_ms % Step >= Step - Range = range_keep.  (What remains checked per generated
+   case, verdict 9, is the GROUP BY / argMax structure around them.) *)
+Theorem process_hints_expressions_meaning : forall re_match cte h ts v,
+  (h_step h <> 0 ->
+   ev re_match cte (ts_env "spls.timestamp_ms" ts) (bucket_expr h) = Some (VI (bucket_of (h_start h) (h_step h) ts))) /\
+  ev re_match cte (ts_env "timestamp_ms" ts)
+     (Or [Eq (ms_in_step "timestamp_ms" (h_step h)) (IntV 0);
+          Ge (ms_in_step "timestamp_ms" (h_step h)) (IntV (h_step h - h_range h))]) =
+  Some (b2v (range_keep (h_step h) (h_range h) (ts, v))).
+Proof. intros. split; [apply ev_bucket_expr|apply ev_range_cond]. Qed.
+Print Assumptions process_hints_expressions_meaning.
